@@ -133,9 +133,18 @@ def run(ctx):
         gen = [json.loads(ln) for ln in vf.read_lines(casep0)]
         gen.sort(key=lambda c: json.dumps(c, sort_keys=True))
         base = [c for c in gen if c["tag"] in ("valid", "cutinstr", "target", "mask")]
-        cases = gen + flips(ctx, base, 2200 if ctx.quick else 150000)
+        cases = gen + flips(ctx, base, 1800 if ctx.quick else 150000)
         if "sbrk_eager_alloc" not in ctx.known_slugs():
             pass   # nothing to steer: the generator holds a single large-sbrk case
+    if ctx.quick:   # the standard-wrapper twins of the cut-instruction programs: every third one
+        keep, k = [], 0
+        for c in cases:
+            if c["tag"] == "cutinstr" and c["kind"] == "std":
+                k += 1
+                if k % 3:
+                    continue
+            keep.append(c)
+        cases = keep
     if ctx.quick:   # the largest declared sizes once, not per argument length
         cases = [c for c in cases if not (c["kind"] == "std" and c["al"] >= 4096 and len(c["blob"]) >= 8
                                           and c["blob"][6] + 256 * c["blob"][7] >= 4096)]
@@ -172,4 +181,4 @@ def run(ctx):
         return r
     ctx.cov["samples"] = [slim(json.loads(x)) for x in (lines[:2] + lines[-2:])]
     vf.validate_trace(ctx, "ProgramBlob_Trace", lines, shard=700 if ctx.quick else 8000, timeout=1800, heap="3g",
-                      par=6 if ctx.quick else 12, what="program blob handling outside the defined outcomes")
+                      par=8 if ctx.quick else 12, what="program blob handling outside the defined outcomes")
